@@ -92,15 +92,22 @@ class _AbstractUsedNamesFilter(AbstractFilter):
         # reference from the module, which itself is referenced by any node
         # through parents.
         path = module_context.py__file__()
-        if path is None:
-            # If the path is None, there is no guarantee that parso caches it.
-            self._parso_cache_node = None
-        else:
-            self._parso_cache_node = get_parso_cache_node(
-                module_context.inference_state.latest_grammar
-                if module_context.is_stub() else module_context.inference_state.grammar,
-                path
-            )
+        # If the path is None, there is no guarantee that parso caches it.
+        self._parso_cache_node = None
+        if path is not None:
+            try:
+                cache_node = get_parso_cache_node(
+                    module_context.inference_state.latest_grammar
+                    if module_context.is_stub() else module_context.inference_state.grammar,
+                    path
+                )
+            except KeyError:
+                # Parsed without parso's cache, e.g. settings.fast_parser = False.
+                pass
+            else:
+                # The entry might belong to another version of the file.
+                if cache_node.node is module_context.tree_node:
+                    self._parso_cache_node = cache_node
         self._used_names = module_context.tree_node.get_used_names()
         self.parent_context = parent_context
 
